@@ -453,6 +453,10 @@ def clause_props(scratch, unit, err):
         # a failed proof step (assert / lemma precondition inside a proof block): it speaks for the clauses it supports;
         # resolved by the caller (inherits the properties of the unit's failed postconditions, else all)
         return None
+    so_ = set(unit.get('safety_only') or [])
+    if so_:
+        # a functional clause of a unit that speaks for some property through its safety obligations only (`C04!`)
+        allp = [p for p in allp if p not in so_] or allp
     line = err.get('clause_line')
     if not line:
         return allp
